@@ -54,6 +54,12 @@ C13 == (pc = "done" /\ ~HasEsc(text)) => \A op \in RelOpts : \A k \in 0..Len(tex
           LET col == SubSeq(text, 1, k) \o q \o SubSeq(text, k + 1, Len(text)) IN
           Attached(col, op.splitter = "hyphen") => StripAll(WrapS(col, op)) = WrapS(text, op)
 
+\* C08, second sentence: replacing the indents by others of equal display width and emptiness changes nothing after the indent
+AltIndent(ind) == CASE ind = <<62, 32>> -> <<35, 32>> [] ind = <<32, 32>> -> <<20320>> [] ind = <<45>> -> <<233>> [] OTHER -> ind
+C08rel == pc = "done" => \A op \in RelOpts :
+            LET op2 == [op EXCEPT !.ii = AltIndent(op.ii), !.si = AltIndent(op.si)] IN
+            Remainders(WrapS(text, op), op) = Remainders(WrapS(text, op2), op2)
+
 C14 == pc = "done" => \A op \in PlainOpts : LET f1 == FillFF(text, op, E) IN FillFF(f1, op, E) = f1
 
 RefillOp(filled, o2) ==
